@@ -18,6 +18,10 @@ type VerifFile struct {
 
 var VerifFiles = map[string]*VerifFile{}
 
+// VerifOnCreate, when set, is called whenever a store builder creates its file (harnesses that care
+// about the moment a table file comes into existence)
+var VerifOnCreate func(fileName string)
+
 type verifSeamWriter struct{ f *VerifFile }
 
 func (w *verifSeamWriter) Write(p []byte) (int, error) {
@@ -42,6 +46,9 @@ func (w *verifSeamWriter) Size() int64  { return int64(len(w.f.Data)) }
 func VerifInstallWriter() {
 	VerifFiles = map[string]*VerifFile{}
 	newBufioWriterFunc = func(fileName string) (bufioutil.BufioWriter, error) {
+		if VerifOnCreate != nil {
+			VerifOnCreate(fileName)
+		}
 		f := &VerifFile{}
 		VerifFiles[fileName] = f
 		return &verifSeamWriter{f: f}, nil
